@@ -146,6 +146,14 @@ def priority(ctx) -> None:
     ret = next((r for r in core.walk_local(fe.node) if isinstance(r, ast.Return)), None)
     okp = ret is not None and isinstance(ret.value, ast.Tuple) and isinstance(ret.value.elts[0], ast.List) and [core.src(e) for e in ret.value.elts[0].elts] == ['reference', 'float(priority)']
     ctx.check(okp, 'C09.priority', fe, 'the configured priority is kept as a float (no truncation: 1.2 and 1.7 are different priorities) in the (reference, priority) field order', ret or fe.node, key='feed:priority-float')
+    # the pool priority is the section's own option: it is taken out *before* the generic extraction flattens `params` into the
+    # keyword arguments (a provider parameter that happens to be called priority must neither override it nor be swallowed)
+    g = cfg.CFG(fe.node)
+    pops = [st for st in g.statements() if any(isinstance(c.func, ast.Attribute) and c.func.attr == 'pop' and c.args and 'PRIORITY' in core.src(c.args[0]).upper() for c in cfg.header_calls(st))]
+    sups = [st for st in g.statements() if any(core.src(c.func) == 'super()._extract' for c in cfg.header_calls(st))]
+    ctx.check(len(pops) == 1 and len(sups) == 1 and g.dominates(pops[0], sups[0]), 'C09.priority', fe, 'the priority option is popped before the generic extraction merges the provider params', fe.node, key='feed:priority-before-params')
+    copies = [a for a in core.walk_local(fe.node) if isinstance(a, ast.Assign) and core.src(a.targets[0]) == 'kwargs' and core.src(a.value) == 'dict(kwargs)']
+    ctx.check(len(copies) == 1 and bool(pops) and copies[0].lineno < pops[0].lineno, 'C09.priority', fe, 'the caller\'s option mapping is copied before anything is popped from it', fe.node, key='feed:copy-before-pop')
     fields = prog.cls('forml.setup._provider:Feed').assigns.get('FIELDS')
     ctx.check(fields is not None and core.src(fields) == "('reference', 'priority', 'params')", 'C09.priority', 'forml.setup._provider:Feed', 'feed section fields are (reference, priority, params)', key='feed:fields', loc='forml/setup/_provider.py')
     flt = prog.func('forml.setup._provider:Feed.__lt__')
